@@ -50,14 +50,21 @@ Definition float_to_int64 (x : float) : Z :=
 
 (* ---- _data2coord(vals, val_range, n) -----------------------------------
      x_width = val_range[1] - val_range[0]
+     if x_width == 0:
+         res = np.zeros(len(vals), dtype=np.int64)
+         res[vals > val_range[1]] = n - 1
+         return res
      scaled = (vals - val_range[0]) * (n / x_width)
      scaled[scaled < 0] = 0
      scaled[scaled > n - 1] = n - 1
      res = scaled.astype(np.int64)
      res[res < 0] = 0
      res[res > n - 1] = n - 1
-   NaN fails both float comparisons, stays NaN, is converted to INT64_MIN and brought to 0
-   by the integer clip. *)
+   A range without extent (x_width is +0.0 or -0.0: beyond 2^53 the caller's widening of a zero
+   extent by 1 is absorbed) puts values up to the single value of the range - and NaN, which
+   fails the comparison - in cell 0 and values beyond it in cell n - 1.  A NaN width is not == 0
+   and takes the general path: every scaled value is NaN.  There NaN fails both float
+   comparisons, stays NaN, is converted to INT64_MIN and brought to 0 by the integer clip. *)
 Definition f_scaled (v lo hi : float) (n : Z) : float :=
   let x_width := (hi - lo)%float in
   ((v - lo) * (Z2float n / x_width))%float.
@@ -73,14 +80,11 @@ Definition i_clip (res n : Z) : Z :=
   res.
 
 Definition f_data2coord (v lo hi : float) (n : Z) : Z :=
-  i_clip (float_to_int64 (f_clip (f_scaled v lo hi n) n)) n.
+  if ((hi - lo) =? 0)%float then (if (hi <? v)%float then n - 1 else 0)
+  else i_clip (float_to_int64 (f_clip (f_scaled v lo hi n) n)) n.
 
-(* the scalar  n / x_width  is evaluated once per call, before any element is looked at, and
-   numba's Python error model raises ZeroDivisionError when x_width is +-0.0 (also for an
-   empty [vals]) *)
-Definition f_data2coord_arr (vals : list float) (lo hi : float) (n : Z) : option (list Z) :=
-  if ((hi - lo) =? 0)%float then None
-  else Some (map (fun v => f_data2coord v lo hi n) vals).
+Definition f_data2coord_arr (vals : list float) (lo hi : float) (n : Z) : list Z :=
+  map (fun v => f_data2coord v lo hi n) vals.
 
 (* ---- _distances_from_bounds(bounds, total_bounds, p) --------------------
      n = bounds.shape[1] // 2                                   (= 2)
@@ -109,18 +113,12 @@ Definition f_distances_from_bounds (bounds : list frow) (tb : frow) (p : nat) : 
   let xmids := map (fun b : frow => let '(x0, _, x1, _) := b in f_mid x0 x1) bounds in
   let ymids := map (fun b : frow => let '(_, y0, _, y1) := b in f_mid y0 y1) bounds in
   let side_length := 2 ^ Z.of_nat p in
-  match f_data2coord_arr xmids xlo xhi side_length with
-  | None => FRaised "ZeroDivisionError"
-  | Some cxs =>
-      match f_data2coord_arr ymids ylo yhi side_length with
-      | None => FRaised "ZeroDivisionError"
-      | Some cys =>
-          FReturned (map (fun c : Z * Z => distance_from_coordinate p [Z.to_N (fst c); Z.to_N (snd c)])
-                         (combine cxs cys))
-      end
-  end.
+  let cxs := f_data2coord_arr xmids xlo xhi side_length in
+  let cys := f_data2coord_arr ymids ylo yhi side_length in
+  FReturned (map (fun c : Z * Z => distance_from_coordinate p [Z.to_N (fst c); Z.to_N (snd c)])
+                 (combine cxs cys)).
 
-(* the Hilbert distance of ONE row (total bounds whose widths are not zero) *)
+(* the Hilbert distance of ONE row *)
 Definition f_hd1 (tb : frow) (p : nat) (b : frow) : N :=
   let '(tx0, ty0, tx1, ty1) := tb in
   let '(xlo, xhi) := f_widen (tx0, tx1) in
